@@ -159,83 +159,7 @@ func checkC01(c *Ctx) string {
 	}
 
 	// ---- 3. silent readers
-	r3 := "C01.3 K6+K9 iterators driven with a non-registering transaction are registered by hand"
-	oiTran := p.NamedType("db19/index", "oiTran")
-	if c.need(r3, "index.oiTran", oiTran) {
-		iface := oiTran.Underlying().(*types.Interface)
-		var silent []string
-		silentT := map[string]types.Type{}
-		for _, pk := range p.Pkgs {
-			sc := pk.Types.Scope()
-			for _, nm := range sc.Names() {
-				tn, ok := sc.Lookup(nm).(*types.TypeName)
-				if !ok || tn.IsAlias() {
-					continue
-				}
-				for _, t := range []types.Type{tn.Type(), types.NewPointer(tn.Type())} {
-					if _, isI := tn.Type().Underlying().(*types.Interface); isI {
-						continue
-					}
-					if !types.Implements(t, iface) {
-						continue
-					}
-					obj, _, _ := types.LookupFieldOrMethod(t, true, pk.Types, "Read")
-					f, _ := obj.(*types.Func)
-					fs := p.Src(f)
-					if fs != nil && fs.Body != nil && len(fs.Body.List) == 0 {
-						name := pkgShort(pk.PkgPath) + "." + nm
-						if silentT[name] == nil {
-							silentT[name] = tn.Type()
-							silent = append(silent, name)
-						}
-					}
-					break
-				}
-			}
-		}
-		sort.Strings(silent)
-		// dbms/query.testTran is test support (testdb.go): tolerated, not required
-		silent = slicesDelete(silent, "dbms/query.testTran")
-		want := []string{"db19.ReadTran", "db19.fkeyTran"}
-		c.Obl(r3, "types whose Read registers nothing", "", fmt.Sprint(silent) == fmt.Sprint(want),
-			fmt.Sprintf("non-registering implementations of oiTran are %v, confirmed %v: UpdateTran would be silent if its Read override disappeared; a new silent type needs a by-hand registration rule", silent, want))
-		// every Next/Prev call with a fkeyTran argument
-		oiNext := p.DeclaredMethod("db19/index", "OverIter", "Next")
-		oiPrev := p.DeclaredMethod("db19/index", "OverIter", "Prev")
-		fkT := p.NamedType("db19", "fkeyTran")
-		if c.need(r3, "index.OverIter.Next", oiNext) && c.need(r3, "index.OverIter.Prev", oiPrev) && c.need(r3, "db19.fkeyTran", fkT) {
-			evSilentMove := Ev{"silentmove", func(fs *FuncSrc, n ast.Node) bool {
-				call, ok := n.(*ast.CallExpr)
-				if !ok || len(call.Args) != 1 {
-					return false
-				}
-				cal := Callee(fs.Info(), call)
-				if !sameFunc(cal, oiNext) && !sameFunc(cal, oiPrev) {
-					return false
-				}
-				t := fs.Info().TypeOf(call.Args[0])
-				return t != nil && types.Identical(t, fkT)
-			}}
-			users := p.FuncsWith([]string{"db19"}, evSilentMove)
-			var us []*FuncSrc
-			for fs := range users {
-				us = append(us, fs)
-			}
-			sort.Slice(us, func(i, j int) bool { return us[i].name < us[j].name })
-			n := 0
-			for _, fs := range us {
-				fl := &Flow{P: p, Depth: 2, Node: Labeler(evSilentMove, CallOf("Read", a.utRead))}
-				res := fl.Analyze(fs)
-				for _, s := range res.Of("silentmove") {
-					n++
-					ok := s.Before.Has("Read") || s.Follows("Read")
-					c.Obl(r3, fs.name+": scan with fkeyTran registers its range with UpdateTran.Read", p.Pos(s.Node), ok,
-						"a foreign-key scan moves an iterator with the non-registering fkeyTran and no UpdateTran.Read is guaranteed on the path")
-				}
-			}
-			c.Floor(r3, n, 5, "iterator moves with fkeyTran")
-		}
-	}
+	checkSilentScans(c, a, "C01.3 K6+K9 iterators driven with a non-registering transaction are registered by hand")
 
 	// ---- 4. overrides
 	r4 := "C01.4 K15 UpdateTran overrides the non-tracking ReadTran methods"
@@ -295,7 +219,8 @@ func checkC01(c *Ctx) string {
 	c.Floor("C01.5 K8 verdict of the checker is passed to UpdateTran.ck", nck, 4, "Checker calls in db19")
 
 	// ---- 6. conflict matrix wiring
-	checkC01Matrix(c)
+	checkC01Matrix(c, "C01.6 K13+K4 conflict matrix wiring of the checker")
+	checkKeysLoopCoverage(c, "C01.6b K18 per-index conflict tests range over the keys themselves")
 
 	// ---- 7. commit serialisation
 	r7 := "C01.7 K3+K2 commits are applied one at a time by the checker goroutine"
@@ -506,11 +431,95 @@ func readArgsShape(p *Prog, fs *FuncSrc, call *ast.CallExpr, curKey, rng *types.
 	return false, "the registered range must run " + what + "; got (" + exprStr(from) + ", " + exprStr(to) + ")"
 }
 
+
+// checkSilentScans: the set of oiTran implementations whose Read registers nothing is
+// frozen, and every iterator move driven with the non-registering fkeyTran is paired
+// with an explicit UpdateTran.Read.
+func checkSilentScans(c *Ctx, a *db19A, r3 string) {
+	p := c.P
+	oiTran := p.NamedType("db19/index", "oiTran")
+	if c.need(r3, "index.oiTran", oiTran) {
+		iface := oiTran.Underlying().(*types.Interface)
+		var silent []string
+		silentT := map[string]types.Type{}
+		for _, pk := range p.Pkgs {
+			sc := pk.Types.Scope()
+			for _, nm := range sc.Names() {
+				tn, ok := sc.Lookup(nm).(*types.TypeName)
+				if !ok || tn.IsAlias() {
+					continue
+				}
+				for _, t := range []types.Type{tn.Type(), types.NewPointer(tn.Type())} {
+					if _, isI := tn.Type().Underlying().(*types.Interface); isI {
+						continue
+					}
+					if !types.Implements(t, iface) {
+						continue
+					}
+					obj, _, _ := types.LookupFieldOrMethod(t, true, pk.Types, "Read")
+					f, _ := obj.(*types.Func)
+					fs := p.Src(f)
+					if fs != nil && fs.Body != nil && len(fs.Body.List) == 0 {
+						name := pkgShort(pk.PkgPath) + "." + nm
+						if silentT[name] == nil {
+							silentT[name] = tn.Type()
+							silent = append(silent, name)
+						}
+					}
+					break
+				}
+			}
+		}
+		sort.Strings(silent)
+		// dbms/query.testTran is test support (testdb.go): tolerated, not required
+		silent = slicesDelete(silent, "dbms/query.testTran")
+		want := []string{"db19.ReadTran", "db19.fkeyTran"}
+		c.Obl(r3, "types whose Read registers nothing", "", fmt.Sprint(silent) == fmt.Sprint(want),
+			fmt.Sprintf("non-registering implementations of oiTran are %v, confirmed %v: UpdateTran would be silent if its Read override disappeared; a new silent type needs a by-hand registration rule", silent, want))
+		// every Next/Prev call with a fkeyTran argument
+		oiNext := p.DeclaredMethod("db19/index", "OverIter", "Next")
+		oiPrev := p.DeclaredMethod("db19/index", "OverIter", "Prev")
+		fkT := p.NamedType("db19", "fkeyTran")
+		if c.need(r3, "index.OverIter.Next", oiNext) && c.need(r3, "index.OverIter.Prev", oiPrev) && c.need(r3, "db19.fkeyTran", fkT) {
+			evSilentMove := Ev{"silentmove", func(fs *FuncSrc, n ast.Node) bool {
+				call, ok := n.(*ast.CallExpr)
+				if !ok || len(call.Args) != 1 {
+					return false
+				}
+				cal := Callee(fs.Info(), call)
+				if !sameFunc(cal, oiNext) && !sameFunc(cal, oiPrev) {
+					return false
+				}
+				t := fs.Info().TypeOf(call.Args[0])
+				return t != nil && types.Identical(t, fkT)
+			}}
+			users := p.FuncsWith([]string{"db19"}, evSilentMove)
+			var us []*FuncSrc
+			for fs := range users {
+				us = append(us, fs)
+			}
+			sort.Slice(us, func(i, j int) bool { return us[i].name < us[j].name })
+			n := 0
+			for _, fs := range us {
+				fl := &Flow{P: p, Depth: 2, Node: Labeler(evSilentMove, CallOf("Read", a.utRead))}
+				res := fl.Analyze(fs)
+				for _, s := range res.Of("silentmove") {
+					n++
+					ok := s.Before.Has("Read") || s.Follows("Read")
+					c.Obl(r3, fs.name+": scan with fkeyTran registers its range with UpdateTran.Read", p.Pos(s.Node), ok,
+						"a foreign-key scan moves an iterator with the non-registering fkeyTran and no UpdateTran.Read is guaranteed on the path")
+				}
+			}
+			c.Floor(r3, n, 5, "iterator moves with fkeyTran")
+		}
+	}
+
+}
+
 // ---- conflict matrix
 
-func checkC01Matrix(c *Ctx) {
+func checkC01Matrix(c *Ctx, r6 string) {
 	p := c.P
-	r6 := "C01.6 K13+K4 conflict matrix wiring of the checker"
 	outputs := p.Field("db19", "actions", "outputs")
 	deletes := p.Field("db19", "actions", "deletes")
 	reads := p.Field("db19", "actions", "reads")
